@@ -32,7 +32,7 @@ void harness(void)
     vf_global_ctors();
     const int      cfg = (int)CASE(CFG);
     const unsigned map = (unsigned)CASE(MAP);
-    const unsigned K   = (unsigned)CASE(K);
+    const unsigned nops = (unsigned)CASE(K);
 
     unsigned kind[MAXK], cnt[MAXK];
     for (unsigned i = 0; i < MAXK; ++i) { kind[i] = (unsigned)in_range(0, 4); cnt[i] = (unsigned)in_range(1, 4); }
@@ -46,7 +46,7 @@ void harness(void)
     unsigned m_remaining = 0;
     unsigned since_counted_start = 0, counted = 0;      /* advertisements since the last start(count), count of that start (0: none) */
 
-    for (unsigned i = 0; i < K && i < MAXK; ++i) {
+    for (unsigned i = 0; i < nops && i < MAXK; ++i) {
         const unsigned before = env_n_adv;
         unsigned lo = 0, hi = 0;                          /* expected number of schedule calls of this operation */
         switch (kind[i]) {
